@@ -9,13 +9,17 @@ echo "--- suite with the change"
 cargo nextest run --workspace --no-fail-fast --offline --test-threads 8 2>&1 | grep -E "^\s+(FAIL|Summary)" | sort -u > /tmp/confirm.$$ 
 cat /tmp/confirm.$$ | head
 bad=$(grep FAIL /tmp/confirm.$$ | grep -v "sync_server_tls" | grep -v "mutant_demo" | wc -l)
+# demos that use the verification hooks need the guard: DEMO_RUSTFLAGS='--cfg gothenburgbitfactory_taskchampion_verif'
+demo() { RUSTFLAGS="${DEMO_RUSTFLAGS:-}" cargo nextest run --offline --test mutant_demo "$@"; }
 echo "--- demo with the change (must fail)"
-cargo nextest run --offline --test mutant_demo 2>&1 | grep -E "Summary|FAIL" | sort -u | head -4
-cargo nextest run --offline --test mutant_demo >/dev/null 2>&1; with=$?
+demo 2>&1 | grep -E "Summary|FAIL|Starting" | sort -u | head -5
+demo >/dev/null 2>&1; with=$?
 git apply -R patch.diff
 echo "--- demo without the change (must pass)"
-cargo nextest run --offline --test mutant_demo 2>&1 | grep -E "Summary|FAIL" | sort -u | head -4
-cargo nextest run --offline --test mutant_demo >/dev/null 2>&1; without=$?
+demo 2>&1 | grep -E "Summary|FAIL|Starting" | sort -u | head -5
+demo 2>&1 | grep -q "Starting [1-9]" ; ran=$?
+demo >/dev/null 2>&1; without=$?
+[ $ran -eq 0 ] || { echo "demo ran no test (missing DEMO_RUSTFLAGS?)"; without=99; }
 git apply patch.diff
 rm -f /tmp/confirm.$$
 if [ "$bad" -eq 0 ] && [ $with -ne 0 ] && [ $without -eq 0 ]; then echo "CONFIRM: OK (suite passes, demo fails with / passes without)"; exit 0; fi
